@@ -192,8 +192,33 @@ let do_chain intl =
      done
    with End_of_file -> ())
 
+(* ---------------- file block lists (Model/FileMap.v) ---------------- *)
+(* adfm filemap : reads "app <data> <ext>" / "trunc <n>" / "find <k>" from stdin; after app/trunc prints the on-disk shape
+   "H b,b,.. ; E e=b,b,..|e=b,..." (and "F b,b,.." = blocks given back by a truncation) *)
+let do_filemap () =
+  let st = ref f_empty in
+  let zl l = String.concat "," (List.map zs l) in
+  let show () =
+    let d = !st.f_data and es = !st.f_exts in
+    Printf.printf "H %s ; E %s\n" (zl (enc_hdr d)) (String.concat "|" (List.map (fun (e, t) -> zs e ^ "=" ^ zl t) (enc_exts d es))) in
+  (try
+     while true do
+       let line = input_line stdin in
+       match List.filter (fun s -> s <> "") (String.split_on_char ' ' line) with
+       | ["app"; d; e] -> st := f_append !st (z_of_int (int_of_string d)) (z_of_int (int_of_string e)); show ()
+       | ["trunc"; n] ->
+         let (s', freed) = f_trunc !st (nat_of_int (int_of_string n)) in
+         st := s'; Printf.printf "F %s\n" (zl freed); show ()
+       | ["find"; k] ->
+         (match find_block (enc_hdr !st.f_data) (enc_exts !st.f_data !st.f_exts) (nat_of_int (int_of_string k)) with
+          | Some b -> print_endline ("B " ^ zs b) | None -> print_endline "B none")
+       | _ -> ()
+     done
+   with End_of_file -> ())
+
 let () =
   match Array.to_list Sys.argv with
+  | [_; "filemap"] -> do_filemap ()
   | [_; "chain"; intl] -> do_chain (intl <> "0")
   | [_; "alloc"; root; last] -> do_alloc (int_of_string root) (int_of_string last)
   | [_; "decode"; img; first; nb; strict] -> do_decode img (int_of_string first) (int_of_string nb) (strict <> "0")
